@@ -620,9 +620,8 @@ pub fn dangers(q: &Query, db: &[Table]) -> Vec<&'static str> {
     let filt0 = q.wh.as_ref().and_then(effective_filter);
     match &q.from {
         From::Tab(_) => {
-            // projection fast path: no filter in the plan, plain column items that are not the table's leading columns in order
-            if filt0.is_none() && !q.star && q.items.iter().all(|e| matches!(e, Expr::Col(_)))
-                && !q.items.iter().enumerate().all(|(j, e)| *e == Expr::Col(j)) { out.push("proj"); }
+            // (the projection fast-path defect, finding class 1, is repaired in /repo: no tag)
+            let _ = &filt0;
         }
         From::Join(k, l, r, on) => {
             if q.star { out.push("star"); }
